@@ -6,6 +6,7 @@ TB_COMMON = [
     "R-attr: derived impls (Clone, PartialEq, Default, Debug) are not verified",
 ]
 TB_FMT = "R-fmt: std::fmt writes format segments in order; Display of char/&str/String is the text itself; fmt::Write for String appends and never fails (validated natively on a fixed battery each run)"
+TB_STR = "R-strfn: str::replace(char, &str) replaces every occurrence left to right; str::replace(&str, &str) is leftmost non-overlapping; str::find(char).is_some() iff the char occurs; String + &str concatenates (battery validated natively each run)"
 TB_CHAR = "R-charfn: char::is_alphabetic is A-Z|a-z on ASCII (validated natively over all 128 code points each run), uninterpreted elsewhere; is_ascii_digit is '0'..='9' (validated over all chars)"
 
 PROPS = {
@@ -22,22 +23,50 @@ PROPS = {
             "the specification of a quoted span (`q_scan`) is hand-written from the property text: backslash protects the next char, a doubled ` ' \" continues the token, [ ] has no doubling",
         ],
     },
+    "C17": {
+        "kind": "verus",
+        "units": [{"name": "escape"}],
+        "search": True,
+        "technique": "Verus contracts on the extracted escape_string / unescape_string bodies of each backend; round trip = composition of the two contracts (theorem `roundtrip` per backend)",
+        "trusted_base": TB_COMMON + [TB_FMT, TB_STR],
+        "assumptions": [
+            "which body a backend runs is read from the `impl EscapeBuilder for X` blocks at extraction time (trait default if the impl does not define the method)",
+        ],
+    },
+    "C03": {
+        "kind": "verus",
+        "units": [{"name": "escape"}],
+        "search": True,
+        "technique": "Verus contracts: every literal writer's output, followed by any non-quote text, lexes under the engine's lexer (spec functions written from the MySQL / PostgreSQL / SQLite manuals) to exactly one token decoding to the supplied value",
+        "trusted_base": TB_COMMON + [TB_FMT, TB_STR,
+            "R-fmt {:02X}: two upper-case hex digits, high nibble first (validated natively for all 256 bytes each run)",
+            "oracles (hand-written from the manuals, not validated against a live MySQL / Postgres): mysql_string_lit, pg_string_lit (E'' and standard-conforming), sqlite_string_lit, x'..' blob literal, Postgres bytea hex input; Postgres octal / \\x / \\u escapes are left uninterpreted (never produced for NUL-free input - proved)",
+            "R-dynw: `&mut dyn SqlWriter` replaced by a generic writer whose only operation appends text"],
+        "assumptions": [
+            "MySQL runs with backslash escapes enabled (NO_BACKSLASH_ESCAPES off) and Postgres with standard_conforming_strings = on (the default since 9.1)",
+            "NUL is excluded for Postgres and SQLite, as the property allows",
+            "positions under contract: query values (value_to_string / value_to_string_common, String / Char / Bytes arms, 3 backends), prepare_constant (constants, LIKE ESCAPE, DEFAULT), MySQL column COMMENT. Positions reached only through these writers (ORDER BY FIELD lists, CREATE/ALTER TYPE labels via prepare_value) rely on a syntactic call-graph fact, not proved. NOT under contract: MySQL table COMMENT (same code shape as column_comment), MySQL ENUM(...) labels (written by format!/join without escaping - see DESIGN.md section 10), optional value types behind cargo features (json, chrono, uuid, ...)",
+            "the text preceding the literal does not glue to it (e.g. an identifier ending in E before a quote): argued at segment level only",
+        ],
+    },
 }
 
 LEVEL_TEXT = {
+    "C17": "Unbounded proof for all strings: escape_string's postcondition is `unescape_spec(result) == input` and unescape_string's is `result == unescape_spec(input)` on the extracted bodies of all three backends (default chain of 8 replacements proved equal to a single-pass map; SQLite quote doubling vs leftmost non-overlapping '' replacement); the property is the verified composition `roundtrip`.",
+    "C03": "Unbounded proof for all strings / chars / byte strings: the extracted literal writers (write_string_quoted default + Postgres override, write_bytes default + Postgres override, value_to_string_common, prepare_constant, MySQL column_comment) satisfy `lex_B(output ++ rest) == (value, |output|)` for every rest not starting with a quote, under the three engines' lexers.",
     "C16": "Unbounded proof: every function of src/token.rs is extracted from the working tree and verified by Verus against contracts taken from the property (termination by decreases, progress, non-empty tokens, concatenation == input, quoted spans == quoted_end); the property is a lemma (tokenize_all + lemma_punct_outside_quotes) over next()'s contract. All strings, all lengths.",
 }
 
 _NOT_YET = "not built yet in this session (planned, see DESIGN.md section 4); no check is registered so nothing is claimed"
 NOT_APPLICABLE = {
-    "C01": _NOT_YET, "C02": _NOT_YET, "C03": _NOT_YET, "C04": _NOT_YET, "C05": _NOT_YET, "C06": _NOT_YET,
+    "C01": _NOT_YET, "C02": _NOT_YET, "C04": _NOT_YET, "C05": _NOT_YET, "C06": _NOT_YET,
     "C07": "defined by executing statements on a real SQLite engine and comparing rows/table contents; no contract on sea-query's functions can express an engine's evaluation semantics and neither Verus nor Kani can take SQLite's C code as a callee (DESIGN.md section 6)",
     "C08": _NOT_YET,
     "C09": "equality of query RESULTS of three renderings on executing engines and equivalence of emulations (IS NULL ordering, IFNULL/COALESCE, GREATEST/MAX): engine semantics, outside any contract on this code (DESIGN.md section 6)",
     "C10": _NOT_YET, "C11": _NOT_YET, "C12": _NOT_YET,
     "C13": "decided by the SQLite catalogue (PRAGMA table_xinfo, sqlite_master) after executing DDL; no contract reaches the engine's DDL interpreter or its type-affinity rules (DESIGN.md section 6)",
     "C14": "needs a MySQL/Postgres DDL grammar as oracle; its core is a 40-arm format! table whose only possible contract is a copy of itself (DESIGN.md section 6)",
-    "C15": _NOT_YET, "C17": _NOT_YET, "C18": _NOT_YET,
+    "C15": _NOT_YET, "C18": _NOT_YET,
     "C19": "the mapping is computed at compile time by a proc-macro over syn token trees with heck; the quantifier is over programs; neither Verus nor Kani can take proc_macro/syn/quote code (DESIGN.md section 6)",
     "C20": _NOT_YET,
 }
